@@ -336,6 +336,8 @@ pub fn set_default(dispatcher: &Dispatch) -> DefaultGuard {
 pub fn set_global_default(dispatcher: Dispatch) -> Result<(), SetGlobalDefaultError> {
     // if `compare_exchange` returns Result::Ok(_), then `new` has been set and
     // `current`—now the prior value—has been returned in the `Ok()` branch.
+    #[cfg(feature = "verif-hooks")]
+    crate::__verif::point("dispatch.GLOBAL_INIT.cas");
     if GLOBAL_INIT
         .compare_exchange(
             UNINITIALIZED,
@@ -364,7 +366,11 @@ pub fn set_global_default(dispatcher: Dispatch) -> Result<(), SetGlobalDefaultEr
         unsafe {
             GLOBAL_DISPATCH = Dispatch { collector };
         }
+        #[cfg(feature = "verif-hooks")]
+        crate::__verif::point("dispatch.GLOBAL_INIT.store");
         GLOBAL_INIT.store(INITIALIZED, Ordering::SeqCst);
+        #[cfg(feature = "verif-hooks")]
+        crate::__verif::point("dispatch.EXISTS.store(global)");
         EXISTS.store(true, Ordering::Release);
         Ok(())
     } else {
@@ -422,6 +428,8 @@ pub fn get_default<T, F>(mut f: F) -> T
 where
     F: FnMut(&Dispatch) -> T,
 {
+    #[cfg(feature = "verif-hooks")]
+    crate::__verif::point("dispatch.SCOPED_COUNT.load");
     if SCOPED_COUNT.load(Ordering::Acquire) == 0 {
         // fast path if no scoped dispatcher has been set; just use the global
         // default.
@@ -509,6 +517,8 @@ where
 
 #[inline(always)]
 pub(crate) fn get_global() -> &'static Dispatch {
+    #[cfg(feature = "verif-hooks")]
+    crate::__verif::point("dispatch.GLOBAL_INIT.load");
     if GLOBAL_INIT.load(Ordering::Acquire) != INITIALIZED {
         return &NONE;
     }
@@ -994,6 +1004,8 @@ impl fmt::Debug for WeakDispatch {
 #[cfg(feature = "std")]
 impl Registrar {
     pub(crate) fn upgrade(&self) -> Option<Dispatch> {
+        #[cfg(feature = "verif-hooks")]
+        crate::__verif::point("dispatch.registrar.upgrade");
         match self.0 {
             Kind::Global(s) => Some(Dispatch {
                 collector: Kind::Global(s),
@@ -1028,6 +1040,8 @@ impl State {
                     .unwrap_or_else(|| get_global().clone())
             })
             .ok();
+        #[cfg(feature = "verif-hooks")]
+        crate::__verif::point("dispatch.SCOPED_COUNT.fetch_add");
         EXISTS.store(true, Ordering::Release);
         SCOPED_COUNT.fetch_add(1, Ordering::Release);
         DefaultGuard(prior)
@@ -1070,6 +1084,8 @@ impl Drop for Entered<'_> {
 impl Drop for DefaultGuard {
     #[inline]
     fn drop(&mut self) {
+        #[cfg(feature = "verif-hooks")]
+        crate::__verif::point("dispatch.SCOPED_COUNT.fetch_sub");
         SCOPED_COUNT.fetch_sub(1, Ordering::Release);
         if let Some(dispatch) = self.0.take() {
             // Replace the dispatcher and then drop the old one outside
